@@ -276,11 +276,7 @@ class World:
   def close(self):
     sv = self.sv
     if sv is not None and self.backend != 'ram':
-      try:
-        sv.datastore._connection.close()  # pylint: disable=protected-access
-        sv.datastore._engine.dispose()  # pylint: disable=protected-access
-      except Exception:  # pylint: disable=broad-except
-        pass
+      close_datastore(sv.datastore)
     self.sv = None
 
   def reopen(self):
@@ -295,6 +291,17 @@ class World:
     self.close()
     if self._own_dir:
       shutil.rmtree(self._own_dir, ignore_errors=True)
+
+
+def close_datastore(ds):
+  """Closes whatever SQLAlchemy connections / engines the datastore holds."""
+  for val in list(vars(ds).values()):
+    for meth in ('close', 'dispose'):
+      if val.__class__.__module__.startswith('sqlalchemy') and hasattr(val, meth):
+        try:
+          getattr(val, meth)()
+        except Exception:  # pylint: disable=broad-except
+          pass
 
 
 def study_name(o, d):
